@@ -6,6 +6,8 @@
 //  3. receive-only select statements -> switch simrt.Select(...)
 //  4. calls of the linknamed runtime_fastrand/memhash/typehash -> verif* hooks
 //  5. (optional) const defaultMinMapTableLen -> package variable
+//  6. receives, close; 8. sends; 9. general selects; 10. `for range ch` -> simrt seams
+//     (see the comments at each rule and DESIGN.md section 10)
 //
 // It never touches the source tree. Exit status 2 on any trouble.
 package main
@@ -277,6 +279,7 @@ func rewriteFile(in, out, dir string, hookDirs, knobDirs map[string]string) erro
 
 	// 2, 3, 4: statements and calls
 	var visit func(n ast.Node) bool
+	chans := chanNames(filepath.Dir(in))
 	rewriteStmts := func(list []ast.Stmt) {
 		for i, s := range list {
 			switch x := s.(type) {
@@ -290,6 +293,15 @@ func rewriteFile(in, out, dir string, hookDirs, knobDirs map[string]string) erro
 				list[i] = &ast.ExprStmt{X: &ast.CallExpr{Fun: sel("simrt", "Send"), Args: []ast.Expr{x.Chan, x.Value}}}
 				needSimrt = true
 				st.chanOps++
+			case *ast.RangeStmt:
+				// 10. `for [v :=] range ch {...}` over a channel -> a loop around
+				// simrt.Recv2 (the rewriter is untyped: a channel is recognised as
+				// `<expr>.C` or a name declared with a channel type in this directory)
+				if fs := rewriteRangeChan(x, chans); fs != nil {
+					list[i] = fs
+					needSimrt = true
+					st.chanOps++
+				}
 			case *ast.SelectStmt:
 				if sw := rewriteSelect(x); sw != nil {
 					list[i] = sw
@@ -617,4 +629,137 @@ func rewriteRecvs(f *ast.File) bool {
 		return true
 	})
 	return changed
+}
+
+// chanNames: identifiers declared with a channel type (struct fields, parameters,
+// `x := make(chan ...)`, `var x chan ...`) in the non-test files of dir.
+var chanNamesCache = map[string]map[string]bool{}
+
+func chanNames(dir string) map[string]bool {
+	if m, ok := chanNamesCache[dir]; ok {
+		return m
+	}
+	m := map[string]bool{}
+	chanNamesCache[dir] = m
+	ents, err := os.ReadDir(dir)
+	if err != nil {
+		return m
+	}
+	isChan := func(e ast.Expr) bool {
+		for {
+			if p, ok := e.(*ast.ParenExpr); ok {
+				e = p.X
+				continue
+			}
+			break
+		}
+		_, ok := e.(*ast.ChanType)
+		return ok
+	}
+	for _, e := range ents {
+		n := e.Name()
+		if e.IsDir() || !strings.HasSuffix(n, ".go") || strings.HasSuffix(n, "_test.go") {
+			continue
+		}
+		f, err := parser.ParseFile(token.NewFileSet(), filepath.Join(dir, n), nil, 0)
+		if err != nil {
+			continue
+		}
+		ast.Inspect(f, func(nd ast.Node) bool {
+			switch x := nd.(type) {
+			case *ast.Field:
+				if isChan(x.Type) {
+					for _, id := range x.Names {
+						m[id.Name] = true
+					}
+				}
+			case *ast.ValueSpec:
+				if x.Type != nil && isChan(x.Type) {
+					for _, id := range x.Names {
+						m[id.Name] = true
+					}
+				}
+				for i, v := range x.Values {
+					if ce, ok := v.(*ast.CallExpr); ok && i < len(x.Names) {
+						if id, ok := ce.Fun.(*ast.Ident); ok && id.Name == "make" && len(ce.Args) > 0 && isChan(ce.Args[0]) {
+							m[x.Names[i].Name] = true
+						}
+					}
+				}
+			case *ast.AssignStmt:
+				for i, v := range x.Rhs {
+					if ce, ok := v.(*ast.CallExpr); ok && i < len(x.Lhs) {
+						if id, ok := ce.Fun.(*ast.Ident); ok && id.Name == "make" && len(ce.Args) > 0 && isChan(ce.Args[0]) {
+							switch l := x.Lhs[i].(type) {
+							case *ast.Ident:
+								m[l.Name] = true
+							case *ast.SelectorExpr:
+								m[l.Sel.Name] = true
+							}
+						}
+					}
+				}
+			}
+			return true
+		})
+	}
+	return m
+}
+
+// rewriteRangeChan: nil when the statement is not (recognisably) a range over a channel.
+func rewriteRangeChan(r *ast.RangeStmt, chans map[string]bool) ast.Stmt {
+	if r.Value != nil {
+		return nil
+	}
+	pure := func(e ast.Expr) bool {
+		for {
+			switch x := e.(type) {
+			case *ast.Ident:
+				return true
+			case *ast.SelectorExpr:
+				e = x.X
+			case *ast.ParenExpr:
+				e = x.X
+			default:
+				return false
+			}
+		}
+	}
+	if !pure(r.X) {
+		return nil
+	}
+	name := ""
+	switch x := r.X.(type) {
+	case *ast.Ident:
+		name = x.Name
+	case *ast.SelectorExpr:
+		name = x.Sel.Name
+	default:
+		return nil
+	}
+	if !(chans[name] || (name == "C" && r.X != nil)) {
+		return nil
+	}
+	if _, isSel := r.X.(*ast.SelectorExpr); name == "C" && !isSel && !chans[name] {
+		return nil
+	}
+	var lhs0 ast.Expr = ast.NewIdent("_")
+	if r.Key != nil {
+		if r.Tok != token.DEFINE {
+			return nil
+		}
+		lhs0 = r.Key
+	}
+	okId := "verifRangeOk__"
+	recv := &ast.AssignStmt{
+		Lhs: []ast.Expr{lhs0, ast.NewIdent(okId)},
+		Tok: token.DEFINE,
+		Rhs: []ast.Expr{&ast.CallExpr{Fun: sel("simrt", "Recv2"), Args: []ast.Expr{r.X}}},
+	}
+	brk := &ast.IfStmt{
+		Cond: &ast.UnaryExpr{Op: token.NOT, X: ast.NewIdent(okId)},
+		Body: &ast.BlockStmt{List: []ast.Stmt{&ast.BranchStmt{Tok: token.BREAK}}},
+	}
+	body := append([]ast.Stmt{recv, brk}, r.Body.List...)
+	return &ast.ForStmt{Body: &ast.BlockStmt{List: body}}
 }
